@@ -71,23 +71,17 @@ pub fn digest_object(o: &Map<String, Value>) -> Result<String> {
     } else if o.contains_key(ID_FIELD) {
         bail!("identifier_in_object")
     }
-    match o.get(HASH_FIELD) {
-        Some(v) => {
-            if v.is_string() {
-                Ok(v.as_str().unwrap().to_owned())
-            } else if v.is_i64() {
-                Ok(v.as_i64().unwrap().to_string())
-            } else if v.is_f64() {
-                Ok(v.as_f64().unwrap().to_string())
-            } else {
-                bail!("invalid_hash_value_type")
+    // The hash field stands in for the digest only where the object can be rebuilt from the digest
+    // alone (see DataStorage::read_object): an object made of nothing but a character code
+    if o.len() == 1 {
+        if let Some(Value::String(h)) = o.get(HASH_FIELD) {
+            if h.len() <= 8 && u32::from_str_radix(h, 16).is_ok() {
+                return Ok(h.to_owned());
             }
         }
-        None => {
-            let content = serde_json::to_string(o).unwrap();
-            Ok(digest_string(&content))
-        }
     }
+    let content = serde_json::to_string(o).unwrap();
+    Ok(digest_string(&content))
 }
 
 /// Returns the identifier of an object with path
